@@ -6,7 +6,7 @@ EXTENDS BigInt
 CONSTANTS MaxFrac, CoeffBits
 F1 == BLit(1)
 F2 == BLit(2)
-CoeffMaxF == BSub(BPow2(CoeffBits), F1)
+CoeffMaxF == IF CoeffBits = 127 THEN I128MaxLit ELSE BSub(BPow2(CoeffBits), F1)
 RoundHalfEven(n, d) == LET qr == BFloorDivMod(n, d)  h == BCmp(BMul(F2, qr[2]), d) IN
    IF h > 0 \/ (h = 0 /\ ~BIsEven(qr[1])) THEN BAdd(qr[1], F1) ELSE qr[1]
 
